@@ -1,7 +1,7 @@
 """C03 — every suggestion is a well-defined local edit (the edit primitive cannot fail; re-basing)."""
 from .. import facts
 from ..prover import Ctx, Lin, analyze, V_slice, V_int, UNKNOWN, V_struct, entails, counter_model
-from ..util import fns_by_key, keyname, norm, last
+from ..util import fns_by_key, keyname, norm, last, place_of
 from ..prov import Prov
 from ..common import method
 from . import c01, c05
@@ -12,6 +12,7 @@ LEVEL = "other"
 def run(ck, tier):
     ck.rule("R-C03-apply", "O4 under the documented precondition span.start <= span.end <= source.len(): every fallible operation of Suggestion::apply (element stores/loads, split_off, the length subtraction) is in range")
     ck.rule("R-C03-copy", "applying a suggestion only moves characters: every character stored into the text by Suggestion::apply is a copy of a character of the text itself or of the suggestion's own characters - no stored value passes through a computing call (case mapping, arithmetic, a closure); so what lies outside the flagged span is carried over unchanged")
+    ck.rule("R-C03-span", "a lint's span is made of token positions: in every Lint literal of harper_core::linting the `span` operand derives from token spans (span(), .span.start/.end, Span::new / new_with_len / pushed_by / pulled_by over them, constants), never from the payload of a token *kind* (Space(n), Newline(n), Number..): a kind payload is a meaning, not a length in characters (n tabs are Space(2n) over n characters)")
     ck.rule("R-C03-rebase", "the chunk cache re-bases lint spans symmetrically (pull_by before put, push_by after get, same offset): same rule instance as R-C05-key (d)")
     ck.not_decided += ["that applying a suggestion yields exactly the spliced text (value-level)", "that every rule's lint span lies inside the text (41 match_to_lint bodies, values)"]
     p = facts.load()
@@ -69,6 +70,7 @@ def run(ck, tier):
                 ck.refuted("R-C03-apply", key, f.loc(r["ln"]), "%s fails inside the precondition, e.g. %s" % (r["what"], r["model"]))
         ck.floor("R-C03-apply", "fallible operations in Suggestion::apply", n, 3)
     _copy_only(ck, p, byk)
+    _span_sources(ck, p)
     # re-basing: shared rule
     c05._key(c05._Sub(_Only(ck, ("chunk-cache:rebase", "chunk-cache:get:chars", "chunk-cache:put:chars")), "R-C03-rebase", ""), p, byk)
 
@@ -182,3 +184,52 @@ def _copy_only(ck, p, byk):
         ck.refuted(rule, "Suggestion::apply:stores", f.loc(bad[0][0]), "a character written into the text is %s, not a copy of an existing character or of the suggestion: applying the suggestion changes text it was not asked to change" % bad[0][1])
     else:
         ck.proved(rule, "Suggestion::apply:stores", f.span, "%d character stores; each copies a character of the text or of the suggestion (only index/iter/copied/split_off/extend on the way)" % n)
+
+
+def _span_sources(ck, p):
+    from ..common import arg_roots as roots_of
+    from ..prov import field_names, flatten
+    rule = "R-C03-span"
+    n = 0
+    bad = []
+    for f in sorted(p.fns.values(), key=lambda f: f.name):
+        if not f.name.startswith("harper_core::linting::") or f.get("kind") == "Promoted":
+            continue
+        pv = None
+        for b in f.blocks:
+            if b["cleanup"]:
+                continue
+            for sx in b["s"]:
+                if sx["k"] == "assign" and sx["rv"]["k"] == "agg" and sx["rv"].get("name", "").endswith("linting::lint::Lint"):
+                    fl = dict(zip(sx["rv"].get("fields", []), sx["rv"]["ops"]))
+                    if "span" not in fl:
+                        continue
+                    pv = pv or Prov(f)
+                    n += 1
+                    names = set()
+                    stack = [fl["span"]]
+                    seen_c = set()
+                    while stack:
+                        op = stack.pop()
+                        raw = pv.trace_operand(op)
+                        names |= set(field_names(raw))
+                        pl_ = place_of(op)
+                        if pl_:
+                            names |= {e[2] for e in pl_[1:] if isinstance(e, list) and e[0] == "f"}
+                        for o in flatten(raw):
+                            if o[0] == "call" and o[1] not in seen_c and len(seen_c) < 60:
+                                seen_c.add(o[1])
+                                nm_ = last(norm(o[3] or o[2] or ""))
+                                if nm_ in ("new", "new_with_len", "pushed_by", "pulled_by", "with_len", "saturating_sub", "min", "max", "unwrap", "unwrap_or", "expect", "add", "sub"):
+                                    stack += list(f.blocks[o[1]]["t"]["args"])
+                    if "kind" in names:
+                        bad.append((keyname(p, f), f.loc(sx["ln"])))
+    ck.floor(rule, "Lint literals in harper_core::linting", n, 40)
+    seen = set()
+    for fn, where in bad:
+        if fn in seen:
+            continue
+        seen.add(fn)
+        ck.refuted(rule, "span-from-kind:%s" % fn, where, "the lint span is computed from the payload of a token kind (e.g. the n of Space(n)), which is not a number of characters: the span can cover other characters than the flagged ones or run past the end of the text (a tab is Space(2) over one character)")
+    if not bad:
+        ck.proved(rule, "span-from-kind", "", "%d Lint literals; no span derives from a token-kind payload" % n)
